@@ -3,7 +3,7 @@ import Ogen.JsonEqualDriver
 /-! Line protocol for the C04 codec model (trusted glue): `jcodec <type> <document>` ↦ `none` when the model's
     decoder refuses the document, else the model's re-encoding of the decoded value.
     `jaccept <type> <document>` ↦ `accept` / `refuse`: the model's verdict decode-then-validate (C03).
-    Type tokens (prefix form): `I` `S` `B`, `A<nul>` item, `O<k>` (or `O<k>:1` for a closed object) followed by k fields `F<req><nul><hex name>` type;
+    Type tokens (prefix form): `I` `S` `B`, `A<nul>` item, `O<k>` (or `O<k>:1` for a closed object) followed by k fields `F<presence><nul><hex name>` [default] type (presence 0 optional, 1 required, 2 default: a document token follows);
     keywords ride on the token after colons, `-` for none: `I:min:max:exMin:exMax:multipleOf`, `S:min:max`,
     `A<nul>:min:max`.
     Document tokens as for C18 (`n t f s<hex> #<hex of the number text> [k {k k<hex>`), numbers are integers. -/
@@ -11,44 +11,6 @@ namespace JCodecDrv
 open JEqG JCodec JEqDrv
 instance : Inhabited Json := ⟨.null⟩
 instance : Inhabited Ty := ⟨.int {}⟩
-
-def parseIntO (s : String) : Option Int :=
-  if s == "-" || s == "" then none
-  else if s.startsWith "-" then some (-((s.drop 1).toString.toNat!)) else some s.toNat!
-def parseNatO (s : String) : Option Nat := if s == "-" || s == "" then none else some s.toNat!
-def lenC (parts : List String) : LenC :=
-  { min := (parseNatO (parts.getD 1 "-")).getD 0, max := parseNatO (parts.getD 2 "-") }
-
-partial def readTy (toks : List String) : Ty × List String :=
-  match toks with
-  | [] => (.int {}, [])
-  | t :: rest =>
-    let parts := t.splitOn ":"
-    let head := parts.getD 0 ""
-    if head == "I" then
-      (.int { min := parseIntO (parts.getD 1 "-"), max := parseIntO (parts.getD 2 "-"), exMin := parts.getD 3 "0" == "1",
-              exMax := parts.getD 4 "0" == "1", mult := parseNatO (parts.getD 5 "-") }, rest)
-    else if head == "S" then (.str (lenC parts), rest)
-    else if head == "B" then (.bool, rest)
-    else if head.startsWith "A" then
-      let (it, r) := readTy rest
-      (.arr (lenC parts) (head == "A1") it, r)
-    else
-      let k := (head.drop 1).toString.toNat!
-      let rec fields (k : Nat) (toks : List String) (acc : List Field) : List Field × List String :=
-        match k with
-        | 0 => (acc.reverse, toks)
-        | k + 1 =>
-          match toks with
-          | f :: r =>
-            let cs := f.toList
-            let req := cs.getD 1 '0' == '1'
-            let nul := cs.getD 2 '0' == '1'
-            let (ft, r') := readTy r
-            fields k r' ((unhexStr (String.ofList (cs.drop 3)), req, nul, ft) :: acc)
-          | [] => (acc.reverse, [])
-      let (fs, r) := fields k rest []
-      (.obj (parts.getD 1 "0" == "1") fs, r)
 
 def parseInt (s : String) : Int :=
   if s.startsWith "-" then -((s.drop 1).toString.toNat!) else s.toNat!
@@ -86,6 +48,55 @@ partial def readJI (toks : List String) : Json × List String :=
           | [] => (acc.reverse, [])
       let (ms, r) := members k rest []
       (.obj ms, r)
+
+def parseIntO (s : String) : Option Int :=
+  if s == "-" || s == "" then none
+  else if s.startsWith "-" then some (-((s.drop 1).toString.toNat!)) else some s.toNat!
+def parseNatO (s : String) : Option Nat := if s == "-" || s == "" then none else some s.toNat!
+def lenC (parts : List String) : LenC :=
+  { min := (parseNatO (parts.getD 1 "-")).getD 0, max := parseNatO (parts.getD 2 "-") }
+
+partial def readTy (toks : List String) : Ty × List String :=
+  match toks with
+  | [] => (.int {}, [])
+  | t :: rest =>
+    let parts := t.splitOn ":"
+    let head := parts.getD 0 ""
+    if head == "I" then
+      (.int { min := parseIntO (parts.getD 1 "-"), max := parseIntO (parts.getD 2 "-"), exMin := parts.getD 3 "0" == "1",
+              exMax := parts.getD 4 "0" == "1", mult := parseNatO (parts.getD 5 "-") }, rest)
+    else if head == "S" then (.str (lenC parts), rest)
+    else if head == "B" then (.bool, rest)
+    else if head.startsWith "A" then
+      let (it, r) := readTy rest
+      (.arr (lenC parts) (head == "A1") it, r)
+    else
+      let k := (head.drop 1).toString.toNat!
+      let rec fields (k : Nat) (toks : List String) (acc : List Field) : List Field × List String :=
+        match k with
+        | 0 => (acc.reverse, toks)
+        | k + 1 =>
+          match toks with
+          | f :: r =>
+            let cs := f.toList
+            let nul := cs.getD 2 '0' == '1'
+            let name := unhexStr (String.ofList (cs.drop 3))
+            -- presence digit: 0 optional, 1 required, 2 optional with a default (the default follows as a document token)
+            if cs.getD 1 '0' == '2' then
+              let (dj, r1) := readJI r
+              let d : Val := match dj with
+                | .num (.int n) => .int n
+                | .str s => .str s
+                | .bool b => .bool b
+                | _ => .null
+              let (ft, r') := readTy r1
+              fields k r' ((name, .dflt d, nul, ft) :: acc)
+            else
+              let (ft, r') := readTy r
+              fields k r' ((name, if cs.getD 1 '0' == '1' then .req else .opt, nul, ft) :: acc)
+          | [] => (acc.reverse, [])
+      let (fs, r) := fields k rest []
+      (.obj (parts.getD 1 "0" == "1") fs, r)
 
 def hexDigit (n : Nat) : Char := if n < 10 then Char.ofNat (48 + n) else Char.ofNat (87 + n)
 def hexStr (s : String) : String :=
